@@ -804,6 +804,12 @@ Next:
   // Validate {Extra} Register
   // -------------------------
 
+  // EVEX gather / scatter (VSIB memory operand and no vector mask operand, i.e. two operands) need a {k} mask register,
+  // `aaa == 000` is undefined.
+  if (ASMJIT_UNLIKELY(common_info.is_vsib_op() && common_info.has_flag(InstDB::InstFlags::kEvex) && op_count == 2 && !extra_reg.is_reg())) {
+    return make_error(Error::kInvalidKMaskUse);
+  }
+
   if (extra_reg.is_reg()) {
     if (Support::test(options, kRepAny)) {
       // Validate REP|REPNE {cx|ecx|rcx}.
